@@ -156,14 +156,19 @@ def gen(tier, seed, chunk, nch):
         mode = "A"
         if rng.random() < 0.15:
             mode = "V"
-        cases.append({"decl": d, "env": env, "argv": argv, "cls": "random", "mode": mode})
+        case = {"decl": d, "env": env, "argv": argv, "cls": "random", "mode": mode}
+        if rng.random() < 0.25:
+            # the documented conditions decide also on a parser whose earlier calls were rejected half-way
+            case["earlier"] = [[rng.choice(benign) if rng.random() < 0.6 else rng.choice(pool)[1]
+                                for _ in range(rng.randint(1, 4))] for _ in range(rng.randint(1, 2))]
+        cases.append(case)
     return cases
 
 
 def script(cid, case):
     size = sum(len(t) for t in case["argv"])
     cpu = 10 if size < 4000 else (60 if size < 40000 else 240)
-    return optoracle.single_script(cid, case, cpu=cpu)
+    return optoracle.single_script(cid, case, cpu=cpu)   # parses case["earlier"] first, if any
 
 
 def crash_key(case, r):
@@ -172,7 +177,9 @@ def crash_key(case, r):
 
 
 def evaluate(case, lines, S):
-    line = next((l for l in lines if l.startswith("P ")), None)
+    line = optoracle.judged_line(lines)
+    if case.get("earlier"):
+        S.counters["judged-parse-on-a-parser-with-a-history"] += 1
     if line is None:
         S.inconc.append("no parse line")
         return
